@@ -267,12 +267,6 @@ Proof.
   - exact (wf_points _ W).
 Qed.
 
-Lemma dangle_att id t : ts_att t <> AOn id -> (forall c, ts_att t = AOn c -> c <> id) -> dangle id t = t.
-Proof.
-  intros _ H. unfold dangle. destruct (ts_att t) as [|c|] eqn:E; try reflexivity.
-  destruct (N.eqb_spec c id) as [E2|E2]; [|reflexivity]. exfalso. now apply (H c eq_refl).
-Qed.
-
 Lemma del_c_abs_att s id oid ci :
   WF s -> In (id, oid) (circuits s) ->
   abs_att (kdel fst id (circuits s)) ci =
